@@ -42,6 +42,14 @@ FOCI13 = [
 ]
 if N >= 13:
     FOCI = FOCI13
+FOCI15 = [
+ "the environment around the library: the change only matters for what the embedding program does - a handler that calls the DataWriter / CopyReader / Parameter helpers in an unusual but legal order, twice, or after an error; a custom net.Listener / net.Conn (deadlines, partial reads and writes); a logger, hook or callback that is slow, fails, or returns unusual combinations",
+ "data-dependent behaviour: the change only matters for particular values - one byte value, a length, a code point, an SQLSTATE, an OID, a name, or a value that happens to equal a sentinel the code uses internally",
+ "a documentation-driven change: make the code match a doc comment, a README claim or a sentence of the PostgreSQL protocol documentation - read too literally, or applied at the wrong layer or to one of two sibling paths",
+ "clean-up: removal of code, a parameter, a field or a branch that looks dead, redundant or duplicated (a second reset, a defensive copy, a re-check after a call) but was needed on one path",
+]
+if N >= 15:
+    FOCI = FOCI15
 props = [json.loads(l) for l in open('/verif/properties.jsonl')]
 earlier = {}
 for f in sorted(glob.glob('/verif/seeded/*/meta.json')):
